@@ -85,12 +85,48 @@ def order_session(u, tier, seed):
     ou = u["order"]
     cases = []
     n = 40 if tier == "quick" else 400
-    for c in range(n):
+    # values that are equal under the ordering although they differ as values: a first sort key
+    # drawn from one such class ties, so the second key alone must decide
+    def is_zero(v):
+        return (v[0] == "int" and v[1]["s"] == 0) or (v[0] == "float" and v[1]["k"] == "fin" and v[1]["n"]["s"] == 0)
+
+    def num_eq(v, lit):
+        return (v[0] == "int" and v[1] == lit) or (v[0] == "float" and v[1]["k"] == "fin" and v[1]["e"] == 0 and v[1]["n"] == lit)
+    one = {"s": 1, "m": [1]}
+    p53 = {"s": 1, "m": [992, 5474, 1992, 9007]}
+    NEG_NAN = {"float": "fff8000000000000"}
+    POS_NAN = {"float": "7ff8000000000000"}
+    tie_classes = [[tvp(v) for v in ou if is_zero(v)], [tvp(v) for v in ou if num_eq(v, one)],
+                   [tvp(v) for v in ou if num_eq(v, p53)], [NEG_NAN, POS_NAN]]
+    tie_classes = [t for t in tie_classes if len(t) >= 2]
+    n_tie = len(tie_classes) * (3 if tier == "quick" else 12)
+    for c in range(n + n_tie):
         nk = rng.choice([1, 1, 2])
         size = rng.randint(2, 12 if nk == 1 else 9)
+        if c >= n:
+            cls = tie_classes[(c - n) % len(tie_classes)]
+            seconds = rng.sample([v for v in ou if v[0] in ("int", "float", "str", "bool", "null")], 5)
+            raw = [[rng.choice(cls), tvp(rng.choice(seconds))] for _ in range(rng.randint(4, 8))]
+            if (c - n) % 2 == 1:
+                raw = [[b, a] for a, b in raw] + [[tvp(rng.choice(seconds)), rng.choice(cls)] for _ in range(2)]
+            nk = 2
+            dirs = [rng.choice([1, -1]) for _ in range(nk)]
+            skip = rng.choice([-1, -1, 0, 1, 2])
+            limit = rng.choice([-1, -1, 2, 3])
+            cols = ["k1", "k2"]
+            q = "UNWIND $rows AS r WITH r[0] AS k1, r[1] AS k2 RETURN k1, k2 ORDER BY " + ", ".join(
+                cols[i] + (" DESC" if dirs[i] < 0 else "") for i in range(nk))
+            if skip >= 0:
+                q += " SKIP %d" % skip
+            if limit >= 0:
+                q += " LIMIT %d" % limit
+            cases.append({"cid": c + 1, "kind": "order", "query": q, "params": {"rows": raw},
+                          "meta": {"dirs": dirs, "skip": skip, "limit": limit, "ties": True}})
+            continue
         if c == 0:
             keys = [[v] for v in ou]
             nk = 1
+            extra_rows = [[NEG_NAN], [POS_NAN]]
         elif c == 1:
             keys = [[v] for v in ou if v[0] in ("int", "float")]
             nk = 1
@@ -114,8 +150,10 @@ def order_session(u, tier, seed):
             q += " SKIP %d" % skip
         if limit >= 0:
             q += " LIMIT %d" % limit
-        cases.append({"cid": c + 1, "kind": "order", "query": q,
-                      "params": {"rows": lst([["list", k] for k in keys])},
+        rows_param = lst([["list", k] for k in keys])
+        if c == 0:
+            rows_param = [[tvp(v) for v in k] for k in keys] + extra_rows
+        cases.append({"cid": c + 1, "kind": "order", "query": q, "params": {"rows": rows_param},
                       "meta": {"dirs": dirs, "skip": skip, "limit": limit}})
     return {"id": "order", "setup": [], "cases": cases}
 
